@@ -71,6 +71,7 @@ def parseEvent (ws : List String) : Option Event :=
     pure (.github { targetSha := t, prs := ps })
   | ["batch"] => some .batch
   | ["ghfail"] => some .githubFailed
+  | ["batchfail"] => some .batchFailed
   | ["flag", "g"] => some (.flag .github)
   | ["flag", "b"] => some (.flag .batch)
   | ["flag", "all"] => some (.flag .all)
